@@ -379,6 +379,28 @@ fn wr(st: &mut MachineState, loc: Loc, w: u32, v: u128) -> Result<(), Fault> {
     }
 }
 
+/// register / memory operand as a u64 (value masked to w bits with 64-bit operations)
+fn rd64(st: &MachineState, loc: Loc, w: u32) -> Result<u64, Fault> {
+    match loc {
+        Loc::Reg(r) => match reg_slot(r) {
+            RegSlot::Gpr { slot, width, high } => {
+                if high {
+                    Ok((st.regs[slot] & 0xff00) >> 8)
+                } else {
+                    Ok(match width {
+                        8 => st.regs[slot] & 0xff,
+                        16 => st.regs[slot] & 0xffff,
+                        32 => st.regs[slot] & 0xffff_ffff,
+                        _ => st.regs[slot],
+                    })
+                }
+            }
+            _ => Ok(0),
+        },
+        _ => rd(st, loc, w).map(|v| v as u64),
+    }
+}
+
 fn set_flags(st: &mut MachineState, affected: u64, values: u64) {
     st.rflags = (st.rflags & !affected) | (values & affected);
 }
@@ -536,29 +558,70 @@ fn shift(c: &mut Ctx, i: &Instruction, m: Mnemonic) -> Result<(), Fault> {
     Ok(())
 }
 
+/// unsigned w x w -> 2w product as (low half, high half), computed in the native double-width type
+pub fn mul_wide_unsigned(w: u32, a: u128, b: u128) -> (u128, u128) {
+    match w {
+        8 => {
+            let r = (a as u8 as u16).wrapping_mul(b as u8 as u16);
+            ((r & 0xff) as u128, (r >> 8) as u128)
+        }
+        16 => {
+            let r = (a as u16 as u32).wrapping_mul(b as u16 as u32);
+            ((r & 0xffff) as u128, (r >> 16) as u128)
+        }
+        32 => {
+            let r = (a as u32 as u64).wrapping_mul(b as u32 as u64);
+            ((r & 0xffff_ffff) as u128, (r >> 32) as u128)
+        }
+        _ => {
+            let r = (a as u64 as u128).wrapping_mul(b as u64 as u128);
+            ((r as u64) as u128, ((r >> 64) as u64) as u128)
+        }
+    }
+}
+/// signed w x w -> 2w product: (low half, high half, product fits in w bits)
+pub fn mul_wide_signed(w: u32, a: u128, b: u128) -> (u128, u128, bool) {
+    match w {
+        8 => {
+            let r = (a as u8 as i8 as i16).wrapping_mul(b as u8 as i8 as i16);
+            ((r as u16 & 0xff) as u128, ((r as u16) >> 8) as u128, r == (r as i8) as i16)
+        }
+        16 => {
+            let r = (a as u16 as i16 as i32).wrapping_mul(b as u16 as i16 as i32);
+            ((r as u32 & 0xffff) as u128, ((r as u32) >> 16) as u128, r == (r as i16) as i32)
+        }
+        32 => {
+            let r = (a as u32 as i32 as i64).wrapping_mul(b as u32 as i32 as i64);
+            ((r as u64 & 0xffff_ffff) as u128, ((r as u64) >> 32) as u128, r == (r as i32) as i64)
+        }
+        _ => {
+            let r = (a as u64 as i64 as i128).wrapping_mul(b as u64 as i64 as i128);
+            ((r as u64) as u128, (((r as u128) >> 64) as u64) as u128, r == (r as i64) as i128)
+        }
+    }
+}
+
 fn muldiv(c: &mut Ctx, i: &Instruction, m: Mnemonic) -> Result<(), Fault> {
     let pre = c.st;
     if m == Mnemonic::Imul && i.op_count() >= 2 {
         // IMUL r, r/m  and  IMUL r, r/m, imm: truncated signed product
         let (l0, w) = operand(i, &pre, 0);
         let (l1, _) = operand(i, &pre, 1);
-        let a = if i.op_count() == 3 {
+        let (x, y) = if i.op_count() == 3 {
             let (l2, _) = operand(i, &pre, 2);
             let s = rd(&pre, l1, w)?;
             let imm = rd(&pre, l2, w)?;
-            (sext(w, s), sext(w, imm))
+            (s, imm)
         } else {
             let d = rd(&pre, l0, w)?;
             let s = rd(&pre, l1, w)?;
-            (sext(w, d), sext(w, s))
+            (d, s)
         };
-        let full = a.0.wrapping_mul(a.1);
-        let r = (full as u128) & mask(w);
-        let ovf = sext(w, r) != full;
-        wr(&mut c.st, l0, w, r)?;
+        let (lo_r, _hi_r, fits) = mul_wide_signed(w, x, y);
+        wr(&mut c.st, l0, w, lo_r)?;
         c.affected = STATUS;
         c.defined = CF | OF;
-        set_flags(&mut c.st, CF | OF, fl(ovf, CF | OF));
+        set_flags(&mut c.st, CF | OF, fl(!fits, CF | OF));
         return Ok(());
     }
     let (l0, w) = operand(i, &pre, 0);
@@ -573,59 +636,107 @@ fn muldiv(c: &mut Ctx, i: &Instruction, m: Mnemonic) -> Result<(), Fault> {
     let hi = reg_get(&pre, hi_reg);
     match m {
         Mnemonic::Mul => {
-            let full = lo * s; // both < 2^64
-            reg_set(&mut c.st, lo_reg, full & mask(w));
-            reg_set(&mut c.st, hi_reg, (full >> w) & mask(w));
+            let (lo_r, hi_r) = mul_wide_unsigned(w, lo, s);
+            reg_set(&mut c.st, lo_reg, lo_r);
+            reg_set(&mut c.st, hi_reg, hi_r);
             // for w == 8 the two writes together are AX := AL * src
             c.affected = STATUS;
             c.defined = CF | OF;
-            set_flags(&mut c.st, CF | OF, fl(full >> w != 0, CF | OF));
+            set_flags(&mut c.st, CF | OF, fl(hi_r != 0, CF | OF));
         }
         Mnemonic::Imul => {
-            let full = sext(w, lo).wrapping_mul(sext(w, s));
-            let lo_r = (full as u128) & mask(w);
+            let (lo_r, hi_r, fits) = mul_wide_signed(w, lo, s);
             reg_set(&mut c.st, lo_reg, lo_r);
-            reg_set(&mut c.st, hi_reg, ((full as u128) >> w) & mask(w));
+            reg_set(&mut c.st, hi_reg, hi_r);
             c.affected = STATUS;
             c.defined = CF | OF;
-            set_flags(&mut c.st, CF | OF, fl(sext(w, lo_r) != full, CF | OF));
+            set_flags(&mut c.st, CF | OF, fl(!fits, CF | OF));
         }
         Mnemonic::Div => {
-            if s == 0 {
+            let s64 = rd64(&pre, l0, w)?;
+            if s64 == 0 {
                 return Err(Fault::DivideError);
             }
-            let dividend = if w == 8 { reg_get(&pre, Register::AX) } else { (hi << w) | lo };
-            let q = dividend / s;
-            let r = dividend % s;
-            if q > mask(w) {
+            // dividend = hi:lo (AX for the 8-bit form); computed in the native double-width type
+            let (q, r, fits) = match w {
+                8 => {
+                    let n = (pre.regs[SLOT_RAX] & 0xffff) as u16;
+                    let d = s64 as u16;
+                    ((n / d) as u128, (n % d) as u128, n / d <= 0xff)
+                }
+                16 => {
+                    let n = (pre.regs[SLOT_RAX] & 0xffff) as u32 | (((pre.regs[SLOT_RDX] & 0xffff) as u32) << 16);
+                    let d = s64 as u32;
+                    ((n / d) as u128, (n % d) as u128, n / d <= 0xffff)
+                }
+                32 => {
+                    let n = (pre.regs[SLOT_RAX] & 0xffff_ffff) | ((pre.regs[SLOT_RDX] & 0xffff_ffff) << 32);
+                    let d = s64;
+                    ((n / d) as u128, (n % d) as u128, n / d <= 0xffff_ffff)
+                }
+                _ => {
+                    let n = (pre.regs[SLOT_RAX] as u128) | ((pre.regs[SLOT_RDX] as u128) << 64);
+                    let d = s64 as u128;
+                    (n / d, n % d, n / d <= u64::MAX as u128)
+                }
+            };
+            if !fits {
                 return Err(Fault::DivideError);
             }
-            reg_set(&mut c.st, lo_reg, q);
-            reg_set(&mut c.st, hi_reg, r);
+            reg_set(&mut c.st, lo_reg, q & mask(w));
+            reg_set(&mut c.st, hi_reg, r & mask(w));
             c.affected = STATUS;
             c.defined = 0;
         }
         _ => {
-            // Idiv
+            // Idiv: signed division truncating toward zero; #DE on zero divisor or unrepresentable quotient
             if s == 0 {
                 return Err(Fault::DivideError);
             }
-            let dividend_u = if w == 8 { reg_get(&pre, Register::AX) } else { (hi << w) | lo };
-            let dividend = if w == 64 { dividend_u as i128 } else { sext(2 * w, dividend_u) };
-            let divisor = sext(w, s);
-            // i128::MIN / -1 cannot occur for w < 64; for w == 64 it is a quotient overflow anyway
-            if w == 64 && dividend == i128::MIN && divisor == -1 {
+            let (q, r, fits) = match w {
+                8 => {
+                    let n = reg_get(&pre, Register::AX) as u16 as i16;
+                    let d = s as u8 as i8 as i16;
+                    // i16::MIN / -1 overflows the native type: the quotient +32768 does not fit 8 bits either
+                    if n == i16::MIN && d == -1 {
+                        (0, 0, false)
+                    } else {
+                        (((n / d) as u16) as u128, ((n % d) as u16) as u128, n / d >= i8::MIN as i16 && n / d <= i8::MAX as i16)
+                    }
+                }
+                16 => {
+                    let n = ((lo as u16 as u32) | ((hi as u16 as u32) << 16)) as i32;
+                    let d = s as u16 as i16 as i32;
+                    if n == i32::MIN && d == -1 {
+                        (0, 0, false)
+                    } else {
+                        (((n / d) as u32) as u128, ((n % d) as u32) as u128, n / d >= i16::MIN as i32 && n / d <= i16::MAX as i32)
+                    }
+                }
+                32 => {
+                    let n = ((lo as u32 as u64) | ((hi as u32 as u64) << 32)) as i64;
+                    let d = s as u32 as i32 as i64;
+                    if n == i64::MIN && d == -1 {
+                        (0, 0, false)
+                    } else {
+                        (((n / d) as u64) as u128, ((n % d) as u64) as u128, n / d >= i32::MIN as i64 && n / d <= i32::MAX as i64)
+                    }
+                }
+                _ => {
+                    let n = ((lo as u64 as u128) | ((hi as u64 as u128) << 64)) as i128;
+                    let d = s as u64 as i64 as i128;
+                    if n == i128::MIN && d == -1 {
+                        (0, 0, false)
+                    } else {
+                        ((n / d) as u128, (n % d) as u128, n / d >= i64::MIN as i128 && n / d <= i64::MAX as i128)
+                    }
+                }
+            };
+            if !fits {
                 return Err(Fault::DivideError);
             }
-            let q = dividend / divisor; // truncates toward zero, as IDIV does
-            let r = dividend % divisor;
-            let minq = -(1i128 << (w - 1));
-            let maxq = (1i128 << (w - 1)) - 1;
-            if q < minq || q > maxq {
-                return Err(Fault::DivideError);
-            }
-            reg_set(&mut c.st, lo_reg, (q as u128) & mask(w));
-            reg_set(&mut c.st, hi_reg, (r as u128) & mask(w));
+            reg_set(&mut c.st, lo_reg, q & mask(w));
+            reg_set(&mut c.st, hi_reg, r & mask(w));
             c.affected = STATUS;
             c.defined = 0;
         }
